@@ -155,6 +155,8 @@ def rigid_fit(before, after):
     """float64: how well is `after` a proper rigid image of `before`?  returns (rms residual, applied rotation)."""
     before = np.asarray(before, np.float64)
     after = np.asarray(after, np.float64)
+    if before.shape != after.shape or not (np.isfinite(before).all() and np.isfinite(after).all()):
+        return float("inf"), np.eye(3)
     msd, R, S, d, Ga, Gb = geom.kabsch_msd(before, after)
     # explicit residual with the optimal proper rotation (the trace formula cancels to only sqrt(eps64) accuracy)
     r = (before - before.mean(0)) @ R - (after - after.mean(0))
